@@ -59,6 +59,9 @@ MUTANTS = {
                 "        if inp.ndim == 3:\n            inp += 0.0\n            inp[0, 0, 0] = inp[0, 0, 0] + 1e-9\n"},
     ],
     "C09": [
+        {"name": "constructor_pads_orientation_at_front", "kind": "sub", "file": BG,
+         "old": "            oriQ = np.pad(oriQ, ((0, len_pos - len_ori), (0, 0)), \"edge\")\n",
+         "new": "            oriQ = np.pad(oriQ, ((len_pos - len_ori, 0), (0, 0)), \"edge\")\n"},
         {"name": "revert_fix_rotate_order", "kind": "revert", "commit": "93dce91"},
         {"name": "revert_fix_numpy_start", "kind": "revert", "commit": "068cf95"},
         {"name": "revert_fix_empty_paths", "kind": "revert", "commit": "d0f5811"},
